@@ -3,6 +3,7 @@ from ..gen import Gen
 from ..unit import run_unit
 from .. import camp_props
 from ..units.loop import Loop
+from ..units.flow import FlowUnit
 from ..units.numeric import IterateUnit, Transform
 
 PROP_FILES = ["props/C01.v"]
@@ -13,7 +14,7 @@ TECHNIQUE = ("Coq proof (total_res <= tol at the internal point => KKT of the us
 
 def run(rep, tier, seed, scratch):
     g = Gen(seed)
-    for u in (Transform(), IterateUnit(), Loop()):
+    for u in (Transform(), IterateUnit(), Loop(), FlowUnit()):
         run_unit(rep, u, u.gen(g, tier), scratch)
     camp_props.run_single(rep, 'C01', tier, seed, 40, 300, allow={'iteration_limit': 400}, families=['convex_qp', 'convex_qp', 'nonlinear'])
     camp_props.run_integration(rep, tier, seed)
